@@ -5,7 +5,7 @@
    arrangement s of the valid elements (one exists: C12_sorted_arrangement_exists).             *)
 From Coq Require Import Reals Lra Lia List Sorting Permutation ZArith.
 From Tevec Require Import Base.Prelude Base.Num Base.XR Spec.Stats Model.SortCmp Model.Quantile
-     Model.Partition Proofs.SortCmp Proofs.OrderXR Proofs.Quantile Proofs.Partition.
+     Model.Rank Model.Partition Proofs.SortCmp Proofs.OrderXR Proofs.Quantile Proofs.Partition Proofs.Rank.
 Import ListNotations.
 Local Open Scope R_scope.
 
@@ -85,6 +85,25 @@ Theorem C12_percentile_of_null :
 Proof.
   intros xs sc m [->|H]; [reflexivity|apply vpercentile_of_all_null; exact H].
 Qed.
+
+(* ---- rank ----------------------------------------------------------------------------------------------- *)
+(* every slot of the output is written; a valid element x gets  #{valid before x} + (#{valid = x} + 1)/2
+   (before = smaller, or larger when rev), divided by the valid count when pct; a null gets null *)
+Theorem C12_rank :
+  forall (pct rev : bool) (xs : list XR) (i : nat),
+    (i < length xs)%nat ->
+    nth_error (vrank (DX := IsNoneXXR) pct rev xs) i
+    = Some (Some (match nth i xs None with
+                  | Some x =>
+                      let r := INR (count_before rev x (valid xs)) + (INR (count_eq x (valid xs)) + 1) / 2 in
+                      Some (if pct then r / INR (length (valid xs)) else r)
+                  | None => None
+                  end)).
+Proof. intros pct rev xs i Hi. apply (proj2 (vrank_spec pct rev xs) i Hi). Qed.
+
+Theorem C12_rank_length :
+  forall (pct rev : bool) (xs : list XR), length (vrank (DX := IsNoneXXR) pct rev xs) = length xs.
+Proof. intros pct rev xs. apply (proj1 (vrank_spec pct rev xs)). Qed.
 
 (* ---- partition ---------------------------------------------------------------------------------------- *)
 (* closed form: with s the sorted (ascending / descending) arrangement of the valid elements, the result
@@ -183,6 +202,17 @@ Proof.
   exists r. split; [exact Hr|]. rewrite (Hsort eq_refl). reflexivity.
 Qed.
 
+Example C12_example_rank :
+  nth_error (vrank (DX := IsNoneXXR) false false [Some 2; None; Some 1; Some 1]) 0 = Some (Some (Some (2 + (1 + 1) / 2)))
+  /\ nth_error (vrank (DX := IsNoneXXR) false false [Some 2; None; Some 1; Some 1]) 1 = Some (Some None).
+Proof.
+  split.
+  - rewrite C12_rank by (cbn; lia). cbn [nth valid flat_map app]. unfold count_before, count_eq, before_b.
+    cbn [filter]. destruct (Rlt_dec 2 2); [lra|]. destruct (Rlt_dec 1 2); [|lra].
+    destruct (Req_EM_T 2 2); [|contradiction]. destruct (Req_EM_T 1 2); [lra|]. reflexivity.
+  - rewrite C12_rank by (cbn; lia). reflexivity.
+Qed.
+
 Print Assumptions C12_sort_is_permutation.
 Print Assumptions C12_sort_is_sorted.
 Print Assumptions C12_sort_cmp_nulls_last.
@@ -194,6 +224,8 @@ Print Assumptions C12_median.
 Print Assumptions C12_mirrored_index.
 Print Assumptions C12_percentile_of.
 Print Assumptions C12_percentile_of_null.
+Print Assumptions C12_rank.
+Print Assumptions C12_rank_length.
 Print Assumptions C12_partition_closed_form.
 Print Assumptions C12_partition.
 Print Assumptions C12_arg_partition.
